@@ -10,7 +10,7 @@ MC_NOTE = ("Trusted: TLC and the TLA+ text under tla/ as the statement of intend
 CHECKS = {
     "C01": ("model_checking", "3.3, 6/C01", "TLC-enumerated configurations x histories of Mock.tla (invariants FirstMatchOnly, CountIsSelections) replayed on the real mock",
             "Exhaustive inside the bounds: every predicate subset, declaration order, exhausted and over-matched chains, strict and partial, all call histories up to the bound; every behaviour is executed against the real builder API and runtime and compared step by step."),
-    "C02": ("model_checking", "3.1, 6/C02", "Builder.tla index arithmetic = statement (ChainOK, KthResponse) by TLC; every chain x history replayed on original and clones; the arithmetic for unbounded counts by Apalache (apalache/BuilderArith.tla)",
+    "C02": ("model_checking", "3.1, 6/C02", "Builder.tla index arithmetic = statement (ChainOK, KthResponse) by TLC; every chain (one to five segments) x history replayed on original and clones; the arithmetic for unbounded counts by Apalache (apalache/BuilderArith.tla)",
             "All well-typed quantifier chains of the family with every response kind, match counts from 0 to beyond the chain's end, ordered/unordered, stub/top-level forms; both the arithmetic-vs-statement equality in the model and the model-vs-code equality by replay."),
     "C03": ("model_checking", "3.3, 6/C03", "TLC invariant VerdictIff on Mock.tla; verdict and verification lines compared with the real drop/verify()/report()",
             "Both directions of the iff are enumerated: counts one below, at and above every bound, every subset of simultaneously violated expectations within the bounds, final verification through all three entry points."),
@@ -28,9 +28,9 @@ CHECKS = {
             "Two engines: (1) re-entrant real functions on the universe, recursion depth <= 2, strict and partial (Mock.tla frames, replay); (2) unmock_with in its three forms, every per-method position incl. a non-mockable item in front, &self/&mut self/Pin/by-value receivers, sync/async, fall-through vs applies_unmocked(), nested calls back into the mock (Shapes.tla UnmockExpected, generated traits). Led to the fix of the missing unmock arm for mutable receivers."),
     "C09": ("model_checking", "3.4, 6/C09", "Lifecycle.tla (teardown statement by statement; invariants ClonesNeverVerify, VerifyPanicsIff, ReportAgrees, VerifiedAtMostOnce) checked by TLC; every event sequence replayed on real instances over two threads",
             "All lifecycle event sequences up to the bound over original, clones, helper clones and lent instances on two OS threads; each operation's panic/silence/exit code compared with the model."),
-    "C11": ("model_checking", "3.4, 6/C11", "Lifecycle.tla invariant NoDoublePanic (with sensitivity runs for a misplaced guard) by TLC; every crash-point sequence executed for real, a process abort is the violation",
+    "C11": ("model_checking", "3.4, 6/C11", "Lifecycle.tla invariant NoDoublePanic (with sensitivity runs for a misplaced guard) by TLC; every crash-point sequence executed for real (the local destroyed by the unwinding plain, boxed, in Rc/Arc, or verified by a fixture's destructor), a process abort is the violation",
             "Panics of six origins x instance topologies x met/unmet expectations x threads are enumerated by TLC and executed; a second panic while unwinding kills the harness process, which the driver attributes to the exact behaviour through a progress file; after caught panics the sequence continues and later verdicts are compared."),
-    "C13": ("model_checking", "3.4, 6/C13", "Lifecycle.tla value-chain part (ChainsDisjoint, LiveValsNotGone, StoredWhileShared) by TLC; borrow epochs re-read after every push and drop counters compared after every operation",
+    "C13": ("model_checking", "3.4, 6/C13", "Lifecycle.tla value-chain part (ChainsDisjoint, LiveValsNotGone, StoredWhileShared) by TLC; borrow epochs re-read after every push and drop counters compared after every operation; Chain.tla (try_insert loop and the lending pattern of borrowed returns: RefsOwn, DistinctCells, LentExact, LentOwn) by TLC over all interleavings, and scheduler executions of the real code validated by ChainTrace.tla",
             "Sequences of make_ref epochs / make_mut / lending / delegation / teardown: every reference keeps designating its own value while borrowed, values are destroyed exactly when the model says (once, not before the owner is verified or dropped, earlier only by make_mut). Sequential part; concurrent pushes belong to the scheduler engine."),
     "C18": ("model_checking", "3.2, 3.3, 6/C18", "Assemble.tla PermInvariant by TLC; metamorphic replay of each behaviour under admissible clause reorderings, over clones, on twin mocks, and for two generic instantiations",
             "One expectation from the model for the whole equivalence class: TLC chooses configuration, admissible permutation and history; the real mock is built in the permuted order and driven (a) directly, (b) with calls routed over clones, (c) in lock-step on two independent mocks."),
